@@ -238,3 +238,65 @@ def check_stats_fresh(W, S, label='C02:stats-current', shells=None):
                S.shell_n_eff[i])
         for a, b, nm in zip(cur[i], new, ['n', 'log_v', 'log_l', 'n_eff']):
             W.require(W.same(a, b), label, 'shell %d %s' % (i, nm))
+
+
+# ---------------------------------------------------------------------------
+# add_bound
+# ---------------------------------------------------------------------------
+
+def add_bound(W, cfg):
+    S, like = st.build(W, cfg)
+    props = cfg.get('props', ['C01', 'C02', 'C03'])
+    pre = snapshot(S)
+    pre_stored = stored_rows(W, S, include_unused_transfer=False)
+    B0 = len(S.bounds)
+    ok, ret = call(W, props[0] + ':add_bound-no-raise', lambda: S.add_bound())
+    if not ok:
+        return
+    B = len(S.bounds)
+    W.require(B == B0 + (1 if ret else 0), props[0] + ':add_bound-return',
+              'returned %r with %d -> %d bounds' % (ret, B0, B))
+    if not st.check_alignment(W, S):
+        return
+    if 'C01' in props:
+        st.check_c01(W, S)
+    if 'C03' in props:
+        st.check_c03_rows(W, S, like)
+        if ret or B0 == 0:
+            # nothing evaluated; rows only move between shells and the
+            # transfer set (previous unused candidates are dropped)
+            post = stored_rows(W, S)
+            check_same_multiset(W, pre_stored, post, 'C03:rows-once')
+        W.require(len(like.calls) == 0, 'C03:no-evaluation-in-add_bound', '')
+    if 'C02' in props:
+        for i in range(B):
+            W.require(S.shell_n[i] == len(S.log_l[i]), 'C02:shell_n',
+                      'shell %d' % i)
+            if i < B0:
+                W.require(W.same(S.shell_n_sample[i], pre['ns'][i]),
+                          'C02:proposal-count-other', 'shell %d' % i)
+        if ret and B > B0:
+            W.require(W.same(S.shell_n_sample[B - 1], 0),
+                      'C02:proposal-count', 'new shell')
+        check_stats_fresh(W, S, shells=[i for i in range(B)
+                                        if len(S.log_l[i]) > 0 or i < B0])
+    if 'C12' in props:
+        W.require(not S.explored, 'C12:add_bound-only-in-exploration', '')
+
+
+def check_same_multiset(W, rows_a, rows_b, label):
+    used = [False] * len(rows_b)
+    ok = len(rows_a) == len(rows_b)
+    if ok:
+        for ra in rows_a:
+            hit = None
+            for k, rb in enumerate(rows_b):
+                if not used[k] and same_row(W, ra, rb):
+                    hit = k
+                    break
+            if hit is None:
+                ok = False
+                break
+            used[hit] = True
+    W.require(ok, label, 'rows before and after differ as multisets '
+              '(%d vs %d rows)' % (len(rows_a), len(rows_b)))
